@@ -75,6 +75,14 @@ def fmt_ob(arr, template_refs, focus='spelling'):
             avail = set() if has_desc else {k for k in arr if k in ('c1', 'c2')}
             if any(r not in avail for r in template_refs):
                 expect = 'error'
+        # the same format string has just been parsed with a template that names every captured column (and with none):
+        # what was accepted then must not decide what is accepted now
+        good = ' '.join('{' + nm + '}' for k, nm in (('c1', n1.lower()), ('c2', n2.lower())) if k in arr)
+        for prime in ((good or None), None):
+            try:
+                parse_format_string(text, prime)
+            except ValueError:
+                pass
         try:
             spec = parse_format_string(text, templ)
         except ValueError:
